@@ -79,3 +79,43 @@ func TestWriteInStaticContextAfterSubcalls(t *testing.T) {
 		stats.Case(key, "family:static_write", "static_write:"+w.name, fmt.Sprintf("static_write_after_subcalls_%d", nCalls))
 	})
 }
+
+// Code that ends inside the immediate data of a PUSH, at every code length and for every PUSH width, executed
+// far enough to need the jump-destination analysis of the whole code (a taken jump): as contract code and as
+// init code. The frame ends as an ordinary call; nothing may crash the host.
+func TestTruncatedPushAtEndOfCode(t *testing.T) {
+	stats.Check(t, 6000, 60000, func(t *rapid.T) {
+		cfgIdx, _ := genConfig(t)
+		total := rapid.IntRange(6, 200).Draw(t, "codeLen")
+		if rapid.IntRange(0, 2).Draw(t, "alignedLen") == 0 {
+			total = 8 * rapid.IntRange(1, 40).Draw(t, "codeLen8")
+		}
+		n := rapid.IntRange(1, 32).Draw(t, "pushWidth")
+		have := rapid.IntRange(0, n-1).Draw(t, "dataBytesPresent")
+		if rapid.IntRange(0, 2).Draw(t, "bare") == 0 {
+			have = 0
+		}
+		if total < 5+1+have {
+			total = 5 + 1 + have
+		}
+		code := []byte{0x60, 0x04, 0x56, 0x00, 0x5b} // PUSH1 4 JUMP STOP JUMPDEST
+		for len(code) < total-1-have {
+			code = append(code, rapid.SampledFrom([]byte{0x00, 0x5b, 0x5b, 0x01}).Draw(t, "filler"))
+		}
+		// the filler must stop before the trailing PUSH: make the byte after the JUMPDEST a STOP
+		code[5%len(code)] = code[5%len(code)]
+		if len(code) > 5 {
+			code[5] = 0x00
+		}
+		code = append(code, byte(0x5f+n))
+		code = append(code, rapid.SliceOfN(rapid.Byte(), have, have).Draw(t, "pushData")...)
+		entry := rapid.SampledFrom([]string{"call", "create", "static"}).Draw(t, "entry")
+		s := &runSpec{cfgIdx: cfgIdx, entry: entry, code: code, input: nil, gas: 5_000_000, extra: map[common.Address][]byte{childA: childACode}}
+		res := execute(s)
+		k := checkCommon(t, s, res)
+		if k != evmh.KindOK {
+			t.Fatalf("a program that jumps to a JUMPDEST followed by STOP, with a PUSH%d cut off after %d data bytes at the end of its %d bytes of code, ended with %s (%v)\n%s", n, have, len(code), k, res.Err, s)
+		}
+		stats.Case(fmt.Sprintf("truncpush|%d|%d|%d|%s", len(code), n, have, entry), "family:truncated_push_at_end", fmt.Sprintf("truncpush_len_mod8_%d", len(code)%8))
+	})
+}
